@@ -55,8 +55,11 @@ def gen_tree(r: Any, prefix: str = "") -> dict:
                 out.append(["cancel", r.choice(known)])
             else:
                 out.append(["work", r.choice([0.0, 0.01, 0.02])])
-            if out[-1][0] in ("imm", "rel", "abs") and depth < 3 and r.random() < 0.45:
-                nested[out[-1][1]] = ops(r.randint(1, 3), depth + 1, known)
+        # nested programs are generated after all siblings exist, so that an action can cancel a LATER sibling
+        # (both are then in the same batch of due items when the first one runs)
+        for op in out:
+            if op[0] in ("imm", "rel", "abs") and depth < 3 and r.random() < 0.45:
+                nested[op[1]] = ops(r.randint(1, 3), depth + 1, known)
         return out
 
     top = ops(r.randint(1, 3), 0, [])
